@@ -19,6 +19,9 @@ from . import loader
 from .sym import Assumed, Engine, EngineLimit, Sym, atom_axioms
 
 REGISTRY: list = []
+import os as _os
+
+_ROOT = _os.path.dirname(_os.path.dirname(_os.path.abspath(__file__)))
 
 
 def contract(target, properties, **kw):
@@ -75,6 +78,16 @@ class Contract:
         except RecursionError:
             raise EngineLimit("recursion limit")
         except Exception as e:
+            # an undocumented exception raised from inside the checker's own code is a checker bug
+            tb = e.__traceback__
+            last = None
+            while tb is not None:
+                last = tb
+                tb = tb.tb_next
+            origin = last.tb_frame.f_code.co_filename if last is not None else ""
+            in_checker = origin.startswith(_ROOT) or "/site-packages/z3/" in origin
+            if in_checker and not getattr(e, "__vt_documented__", False):
+                raise
             raise RealRaise(e)
 
     def call(self, case):
